@@ -172,14 +172,15 @@ def expr_dir_b(v, pid, tier, entries, what, families=("mixed", "nested")):
     """Direction B: seeded random tables and big expressions, every record judged by TLC from its text."""
     nstreams = 8 if tier == "quick" else 16
     per = {"mixed": 24 if tier == "quick" else 150, "nested": 6 if tier == "quick" else 40, "calls": 700 if tier == "quick" else 12000,
-           "soup": 1500 if tier == "quick" else 20000, "mutant": 1500 if tier == "quick" else 20000}
+           "chain": 20 if tier == "quick" else 240, "soup": 1500 if tier == "quick" else 20000, "mutant": 1500 if tier == "quick" else 20000}
     hi = 140 if tier == "quick" else 300
     jobs = []
     for fam in families:
         for k in range(nstreams):
             tag = f"{pid}/fuzz-{fam}-{k}"
             jobs.append(lambda tag=tag, fam=fam, k=k: (tag,) + pipeline.fuzz_replay(
-                tag, ["fuzz-expr", "--family", fam, "--n", str(per[fam]), "--stream", str(k), "--max-operands", str(hi)],
+                tag, ["fuzz-expr", "--family", fam, "--n", str(per[fam]), "--stream", str(k), "--max-operands", str(hi),
+                      "--max-chain", "100"],      # flat -> deep -> flat of longer chains runs into known finding F11 (C06)
                 ["--forward-all", "--entries", ",".join(entries)]))
     res = parallel(jobs)
     ncases = 0
@@ -259,7 +260,7 @@ def c03(a):
     ents = ["flat", "deep", "f2d", "fwo2d", "d2f", "f2d2f", "d2f2d"]
     what = "flat and deep forms are not interchangeable"
     expr_dir_a(v, "C03", a.tier, ents, what, sample_every=6)
-    expr_dir_b(v, "C03", a.tier, ents, what, families=("mixed", "nested", "soup", "mutant"))
+    expr_dir_b(v, "C03", a.tier, ents, what, families=("mixed", "nested", "chain", "soup", "mutant"))
     v.notes.append("operator listings (sorted, duplicate-free, applied-to-variable subset, subset of the text, flat = deep "
                    "without constant sub-expressions) are judged on every forwarded record; direction A forwards a record "
                    "only if some value or variable list is not identical to the TLC expectation")
@@ -630,8 +631,8 @@ def c15(a):
     v.cov["traces_validated_against_impl"] += summ["runs"]
     v.cov["evaluations"] += summ["runs"]
     simple_judged(v, "C15/jconsume", obsp, "Judge_Consume", what)
-    v.notes.append(f"direction A: {summ['cases']} occurrence patterns (3 variables + literals over <= {6 if q else 7} operands, every "
-                   "interleaving) x {unfolded, folded} through eval / eval_vec / eval_iter with a clone-counting data type; the scan model "
+    v.notes.append(f"direction A: {summ['cases']} cases = occurrence patterns (3 variables + literals over <= {6 if q else 7} operands, every "
+                   "interleaving) x every subset of the absent variables listed without occurring (built as `e + g*0` through the deep form) x {unfolded, folded} through eval / eval_vec / eval_iter with a clone-counting data type; the scan model "
                    "FlatImpl.Consume never reads a moved-out slot and moves exactly the last occurrence (ScanOk)")
     n = 60 if q else 600
     jobs = []
@@ -639,7 +640,7 @@ def c15(a):
         t2 = f"C15/fuzz-mixed-{k}"
         jobs.append(lambda t2=t2, k=k: (t2,) + pipeline.fuzz_replay(
             t2, ["fuzz-expr", "--family", "mixed", "--n", str(n // 6), "--stream", str(k), "--max-operands", "60"],
-            ["--forward-all"], mode="consume"))
+            ["--forward-all", "--ghosts"], mode="consume"))
     good = []
     for t2, s2, p2 in parallel(jobs):
         if s2.get("crashed"):
@@ -649,7 +650,8 @@ def c15(a):
             v.cov["traces_validated_against_impl"] += s2["runs"]
             v.cov["evaluations"] += s2["runs"]
     parallel([(lambda t2=t2, p2=p2: simple_judged(v, t2, p2, "Judge_Consume", what)) for t2, p2 in good], 6)
-    v.notes.append("direction B: random expressions up to 60 operands / 40 variables with repeated occurrences, folded and unfolded")
+    v.notes.append("direction B: random expressions up to 60 operands / 40 variables with repeated occurrences, folded and unfolded, "
+                   "each also with one or two listed-but-absent variables (sorting first / last)")
     v.cov["rule"] = "all sequences over {literal, a, b, c} of length <= L (exhaustive); non-trivial = at least one variable"
     v.cov["distinct_nontrivial"] = summ["cases"]
     v.cov["exhaustive"] = True
@@ -891,10 +893,12 @@ def c06(a):
                    "conversion, unparse, listings and differentiation; tallies equal the TLC state counts")
     # (3) big and hostile inputs in separate processes (default 8 MiB main-thread stack)
     n = {"bigsoup": 40 if q else 600, "bigwf": 16 if q else 200, "nested": 40 if q else 600, "soup": 3000 if q else 60000,
-         "mutant": 3000 if q else 60000, "dmg-float": 1500 if q else 30000, "dmg-val": 1500 if q else 30000}
+         "mutant": 3000 if q else 60000, "dmg-float": 1500 if q else 30000, "dmg-val": 1500 if q else 30000,
+         "arr-val": 3000 if q else 60000}
     jobs = []
     for fam, cnt in n.items():
-        ents = ALL_ENTRIES if fam in ("dmg-float", "dmg-val", "soup", "mutant") else "flat,flat_wo,deep,f2d,d2f"
+        ents = ("parse_val,stmt_val" if fam == "arr-val" else
+                ALL_ENTRIES if fam in ("dmg-float", "dmg-val", "soup", "mutant") else "flat,flat_wo,deep,f2d,d2f")
         for k in range(2):
             tag = f"C06/fuzz-{fam}-{k}"
             jobs.append(lambda tag=tag, fam=fam, cnt=cnt, k=k, ents=ents: (tag,) + pipeline.fuzz_replay(
@@ -914,6 +918,41 @@ def c06(a):
     v.notes.append("direction B: token soup of 200-1000 tokens, well-formed expressions of ~1000 tokens, nesting 20-100 levels, short soup, "
                    "mutated texts, damaged texts over the real float and value tables; each pipeline is its own process, an abort is a violation; "
                    "value-type operand catalogues as folded literals are covered by C17's literal route")
+    # (4) long texts without any nesting: conversion and differentiation; one process per case (an abort cannot be caught)
+    sizes = [20, 64, 65, 96, 128, 200, 334, 500] if q else [20, 40, 64, 65, 80, 96, 110, 128, 150, 200, 257, 334, 400, 500]
+    acts = ["parse_eval", "unparse", "deep_parse_eval", "to_deep", "to_deep_unparse", "deep_to_flat", "roundtrip", "partial", "deep_partial"]
+    lc = []
+    for ty, tacts in (("f64", acts), ("val", ["parse_eval", "roundtrip", "partial"])):
+        for op in ("-", "*", "mix") if ty == "f64" else ("-",):
+            for act in tacts:
+                for nn in sizes:
+                    lc.append((ty, op, act, nn))
+    def one_lc(c):
+        ty, op, act, nn = c
+        p = vlib.run_recorder(["longchain", "--n", str(nn), "--op", op, "--act", act, "--ty", ty], timeout=300)
+        out = p.stdout.decode().strip()
+        return c, p.returncode, (json.loads(out)["outcome"] if out else "aborted")
+    lcstat = {"ok": 0, "aborted": 0, "other": 0}
+    for c, rc, outcome in parallel([(lambda c=c: one_lc(c)) for c in lc], 12):
+        ty, op, act, nn = c
+        v.cov["traces_validated_against_impl"] += 1
+        v.cov["evaluations"] += 1
+        if outcome == "ok":
+            lcstat["ok"] += 1
+            continue
+        lcstat["aborted" if outcome == "aborted" else "other"] += 1
+        text = f"x0{op if op != 'mix' else '*'}x1{op if op != 'mix' else '-'}...x{nn - 1}"
+        # known finding F11 (open): identified by its call sites - FlatEx::partial and FlatEx::from_deepex(to_deepex()) on a text
+        # whose flat form has more than 64 binary operators (to_deepex nests one level per operator)
+        if outcome == "aborted" and act in ("roundtrip", "partial") and nn > 65 and vlib.finding_open("F11"):
+            v.known_finding("F11", "FlatEx::partial and to_deepex -> from_deepex of an unnested text with more than ~95 / ~140 operands "
+                                   "(e.g. a 100-term sum, 199 tokens) exhaust the 8 MiB main-thread stack: the process aborts")
+            continue
+        v.violation({"longchain": {"ty": ty, "op": op, "act": act, "n": nn, "rc": rc, "outcome": outcome}},
+                    f"{what}: `{text}` ({2 * nn - 1} tokens, no nesting) through {act} [{ty}]: {outcome} (rc={rc})")
+    v.cov["longchain"] = lcstat
+    v.notes.append(f"long unnested texts: {len(lc)} cases (20..500 operands = 39..999 tokens; one operator or alternating priorities; f64 and the value "
+                   f"type) through parse/eval, unparse, deep parse, to_deepex, deep->flat, flat->deep->flat, partial, each in its own process: {lcstat}")
     v.cov["rule"] = "every token sequence / character string up to the bound (exhaustive, tallied against TLC's state count)"
     v.cov["distinct_nontrivial"] = ntok + nstr
     v.cov["exhaustive"] = True
@@ -1020,7 +1059,7 @@ def calc_pipeline(v, pid, tier, alphabet, max_steps, families, acts, what, n_per
             hist = [{kk: vv for kk, vv in st.items() if kk != "res"} for st in r0.get("steps", [])[:k]]
             if verdict == "bad:vars-unused-variable-lost":
                 # known finding F8 (open): identified by its call sites - variable lists rebuilt from occurring nodes
-                if act in ("reparse", "serde", "subs"):
+                if act in ("reparse", "serde", "subs") and vlib.finding_open("F8"):
                     v.known_finding("F8", "a listed variable that no longer occurs (derivative of `x`, `y*0`, `0/(x+1)`) is dropped when the "
                                           "expression is printed and parsed back / serialised (C12) or substituted (C11)")
                     continue
@@ -1158,19 +1197,20 @@ def c18(a):
                     if "case" in qq:
                         recs[qq["case"]] = qq
             text = vlib.uncps(recs.get(case, {}).get("text", []))
-            if "[F6:" in verdict:
+            if "[F6:" in verdict and vlib.finding_open("F6"):
                 stats["known"] += 1
                 v.known_finding("F6", "differentiation folds integer literals with integer arithmetic (quotient rule: 2/4 = 0) and applies "
                                       "ln to integer bases: programs with an integer literal next to / or ^")
                 continue
-            if "[F10:" in verdict:
+            if "[F10:" in verdict and vlib.finding_open("F10"):
                 stats["known"] += 1
                 v.known_finding("F10", "`a if c else b` with a variable-free condition that is false: `a if c` is folded to None at parse "
                                        "time and the derivative of that constant is 0 instead of None, so the else-branch is ignored")
                 continue
             stats["bad"] += 1
-            v.violation({"text": text, "point": recs.get(case, {}).get("point"), "k": kq, "record": recs.get(case)},
-                        f"{what}: `{text}` variable {kq}: {verdict}")
+            rr = (recs.get(case, {}).get("res") or [{}] * kq)[kq - 1]
+            v.violation({"text": text, "point": recs.get(case, {}).get("point"), "k": rr.get("k"), "route": rr.get("route"), "record": recs.get(case)},
+                        f"{what}: `{text}` variable {rr.get('k')} ({rr.get('route')} route): {verdict}")
     v.cov["steps_judged"] = stats
     v.cov["distinct_nontrivial"] = stats["ok"] + stats["bad"] + stats["known"]
     v.cov["rule"] = ("seeded programs `f if cond else g` nested up to 3 levels with arithmetic around them, f/g typed by base point, comparison "
@@ -1314,7 +1354,11 @@ def c20(a):
     table2 = json.loads(json.dumps(t8_table_json()))
     table2[5]["name"] = [42, 42]
     texts2 = ["x1**2*x2", "sn(x1 ** 3) - 1", "x1 * 2 ** x2 ** 3", "(x1 ** 2", "x1 mn 2 ** 2"]
+    def bigtext(nn):
+        ops = ["+", "*", "-", "|", "&", "%", "*", "+"]
+        return " ".join(f"x{j % 5 + 1}" + (f" {ops[(j * 7 + nn) % len(ops)]}" if j < nn - 1 else "") for j in range(nn))
     cfgrec = {"table": t8_table_json(), "texts": [vlib.cps(t) for t in texts], "table2": table2, "texts2": [vlib.cps(t) for t in texts2],
+              "bigtexts": [vlib.cps(bigtext(70)), vlib.cps(bigtext(135))],
               "ftexts": ["x*2+sin(y)/(1+z^2)", "atan2(a, b) - max(1, min(a, b))", "1/3+2/7"]}
     runs = 6 if q else 60
     def one(k):
